@@ -155,6 +155,27 @@ CHECKS = {
              '(KF-C05-1 in-place edits after evaluation, KF-C05-2 flood fill after value change). Viewer layer-state caches are not driven.',
         technique='TLA+ spec + TLC (interleavings) + replay with fresh-rebuild oracle',
         design='7/C05'),
+    'C08': dict(
+        text='Geometry.tla: exact integer geometry (coordinates on a 1/20 lattice, angles with rational sine/cosine and angles within '
+             '1e-10 of a quarter turn) of rectangles, rotated rectangles, circles, ellipses, rotated ellipses, annuli, x/y ranges and '
+             'polygons (open, closed, concave); TLC computes the contained set and the exact-boundary band of every region after '
+             'every action of short sequences (move, rotate, copy, save/restore, polygon approximation, transpose) and checks that '
+             'moving translates the contained set; real ROI objects are driven through the same actions and contains() is compared '
+             'off the band on 289 points in four array layouts (2-d, flat, broadcast views, Fortran order); center() is compared; '
+             'Projected3dROI.contains3d is compared for integer projection matrices incl. > 10^6 points (several chunks).',
+        note='Bounded: region menu of MC_Geometry.tla, 5 angle classes (12 thorough), sequences <= 2. Irrational angles and off-lattice '
+             'parameters are not representable; to_polygon of curved shapes is not compared.',
+        technique='TLA+ spec (exact geometry, equivariance as action property) + TLC + replay into real ROI objects',
+        design='7/C08'),
+    'C09': dict(
+        text='RoiToSubset.tla (on Geometry.tla): for every region (x/y ranges with edges swept over the quarter grid, rectangles, '
+             'circles, ellipses, polygons, category sets), every numeric/categorical axis pair and 1-4 categories TLC computes which '
+             'plotted positions (category index on categorical axes) the region contains; roi_to_subset_state is applied on real '
+             'data with scrambled rows and a missing value, and the mask of the returned state is compared off the boundary - one '
+             'requirement for all seven conversion paths.',
+        note='Bounded: about 2000 configurations; categories plotted in sorted-label order; elements are all combinations of positions.',
+        technique='TLA+ spec (exact containment) + TLC enumeration + replay into roi_to_subset_state',
+        design='7/C09'),
 }
 
 NOT_APPLICABLE = {}
